@@ -433,10 +433,10 @@ Proof.
   intros Ho. apply (sw_run (OInv ap)); try assumption.
   - exact oi_finish.
   - exact oi_place.
-  - intros s0 a o p HI. eapply oinv_frame; [|exact HI]. unfold EscFrame. proj_cbn. repeat (split; [reflexivity|]). reflexivity.
+  - intros s0 a o p HI _. eapply oinv_frame; [|exact HI]. unfold EscFrame. proj_cbn. repeat (split; [reflexivity|]). reflexivity.
   - intros; eapply oi_mm_tail; eauto.
   - exact oi_fill_book.
-  - exact oi_mark_status.
+  - intros s0 k o g st HI Hf Hl [-> | ->]; apply oi_mark_status; auto.
   - exact oi_esc_in.
   - exact oi_esc_out.
   - intros s0 pr HI. eapply oinv_frame; [|exact HI]. unfold EscFrame. proj_cbn. repeat (split; [reflexivity|]). reflexivity.
